@@ -227,6 +227,9 @@ def gen_model(tier, seed):
                 if errs and kind == "unbinned":
                     continue
                 yield {"kind": kind, "function": fn, "errors": errs}
+    for be in ("rectangle", "trapezoid", "numerical", "simpson"):          # every way of evaluating the bins, and both normalisations, come back as they were
+        for density in (True, False):
+            yield {"kind": "hist", "function": "def", "errors": False, "bin_evaluation": be, "density": density}
 
 
 @R.oracle("parametric_model_round_trip", gen_model, obligation="ParametricModelYamlWriter / ParametricModelYamlReader")
@@ -243,7 +246,7 @@ def pmodel(inp):
         if inp["errors"]:
             m.add_error(ABS, correlation=0.3)
     elif k == "hist":
-        m = hm.HistParametricModel(6, (-3, 3), "normal_distribution" if lib else normal, [0.3, 1.4])
+        m = hm.HistParametricModel(6, (-3, 3), "normal_distribution" if lib else normal, [0.3, 1.4], **({"bin_evaluation": inp["bin_evaluation"], "density": inp["density"]} if "bin_evaluation" in inp else {}))
         if inp["errors"]:
             m.add_error(0.1, relative=True)
     else:
@@ -263,6 +266,8 @@ def pmodel(inp):
                 return r
         if back.label != m.label:
             return {"got": back.label, "expected": m.label, "witness_class": tag + ":label"}
+        if k == "hist" and (back.bin_evaluation_string != m.bin_evaluation_string or back.density != m.density):
+            return {"got": [back.bin_evaluation_string, back.density], "expected": [m.bin_evaluation_string, m.density], "witness_class": tag + ":bin-evaluation-settings"}
         p2 = [0.9, 2.2]
         back.parameters = p2; m.parameters = p2
         return same(back.data, m.data, tag + ":values-at-other-parameters")
